@@ -20,6 +20,20 @@ type Layout struct {
 	TdxMetaPos int // position of the 16-byte GUID that precedes the descriptor
 	// Broken names the single rule deliberately broken ("" = valid).
 	Broken string
+	// Ov carries hostile overrides of raw header fields (nil pointers = computed values).
+	Ov Overrides
+}
+
+// Overrides replace computed raw fields with hostile values.
+type Overrides struct {
+	SevLen, SevCount, SevSig             *uint32
+	TdxLen, TdxCount, TdxSig, TdxVersion *uint32
+	SevOffset, TdxOffset                 *uint32
+	FooterSize                           *uint16
+	EntrySizeIdx                         int
+	EntrySize                            *uint16
+	DuplicateEntry                       bool
+	DropReset                            bool
 }
 
 // Options steer the valid-image generator.
@@ -29,6 +43,11 @@ type Options struct {
 	// MaxSevSections bounds the SEV section count (>=3).
 	MaxSevSections int
 	MaxTempMem     int
+	// MaxTdxPrivateSize, when non-zero, bounds the hostile MemorySize values planted into TD-HOB and
+	// TempMem sections (a confirmed, recorded finding class is excluded by construction so that the
+	// search continues behind it; Excluded counts how often that happened).
+	MaxTdxPrivateSize uint64
+	Excluded          *int
 }
 
 var fillerGUIDs = []string{
@@ -335,8 +354,8 @@ func GenValid(t *rapid.T, o Options) *Layout {
 func Assemble(t *rapid.T, l *Layout) {
 	s := l.Spec
 	s.Entries, s.Blobs = nil, nil
-	sevMeta := SevMetadataBytes(l.Sev, nil, nil, nil)
-	tdxMeta := TdxMetadataBytes(l.Tdx, nil, nil, nil, nil)
+	sevMeta := SevMetadataBytes(l.Sev, l.Ov.SevLen, l.Ov.SevCount, l.Ov.SevSig)
+	tdxMeta := TdxMetadataBytes(l.Tdx, l.Ov.TdxLen, l.Ov.TdxCount, l.Ov.TdxSig, l.Ov.TdxVersion)
 	// table size: entries are 22 bytes each + fillers
 	var fill []Entry
 	nf := rapid.IntRange(0, 2).Draw(t, "nFillers")
@@ -381,20 +400,172 @@ func Assemble(t *rapid.T, l *Layout) {
 	}
 	place(!first)
 	var entries []Entry
-	if l.HasReset {
+	if l.HasReset && !l.Ov.DropReset {
 		entries = append(entries, Entry{GUID: SevEsResetGUID, Data: U32(l.ResetAddr)})
 	}
 	if l.HasSev {
-		entries = append(entries, Entry{GUID: SevMetaOffsetGUID, Data: U32(uint32(s.Size - l.SevMetaPos))})
+		off := uint32(s.Size - l.SevMetaPos)
+		if l.Ov.SevOffset != nil {
+			off = *l.Ov.SevOffset
+		}
+		entries = append(entries, Entry{GUID: SevMetaOffsetGUID, Data: U32(off)})
 	}
 	if l.HasTdx {
-		entries = append(entries, Entry{GUID: TdxMetaOffsetGUID, Data: U32(uint32(s.Size - (l.TdxMetaPos + 16)))})
+		off := uint32(s.Size - (l.TdxMetaPos + 16))
+		if l.Ov.TdxOffset != nil {
+			off = *l.Ov.TdxOffset
+		}
+		entries = append(entries, Entry{GUID: TdxMetaOffsetGUID, Data: U32(off)})
 	}
 	entries = append(entries, fill...)
+	if l.Ov.DuplicateEntry && len(entries) > 0 {
+		entries = append(entries, entries[0])
+	}
 	order := rapid.Permutation(seq(len(entries))).Draw(t, "entryOrder")
 	for _, p := range order {
 		s.Entries = append(s.Entries, entries[p])
 	}
+	if l.Ov.EntrySize != nil && len(s.Entries) > 0 {
+		s.Entries[l.Ov.EntrySizeIdx%len(s.Entries)].SizeOverride = l.Ov.EntrySize
+	}
+	s.FooterSizeOverride = l.Ov.FooterSize
+}
+
+// Hostile32 / Hostile64 are the overflow-provoking constants.
+var Hostile32 = []uint32{0, 1, 4, 15, 16, 17, 18, 0x1000, 0x7fffffff, 0x80000000, 0xfffff000, 0xfffffff0, 0xffffffff, 0x15555554, 0x15555555, 0x15555556, 0x07ffffff, 0x08000000, 0x08000001, 0x10000000}
+var Hostile64 = []uint64{0, 1, 0xfff, 0x1000, 0x7fffffff, 0x80000000, 0xffffffff, 0x100000000, 1 << 40, 1 << 52, 1 << 63, 0xfffffffffffff000, 0xffffffffffffffff}
+
+func h32(t *rapid.T, label string) *uint32 {
+	v := rapid.OneOf(rapid.SampledFrom(Hostile32), rapid.Uint32()).Draw(t, label)
+	return &v
+}
+
+func h64(t *rapid.T, label string) uint64 {
+	return rapid.OneOf(rapid.SampledFrom(Hostile64), rapid.Uint64()).Draw(t, label)
+}
+
+// GenHostile draws a valid layout and then plants 1-3 hostile values into raw size/offset/count
+// fields. It returns the image bytes, the list of planted mutations, and the layout.
+func GenHostile(t *rapid.T, o Options) ([]byte, []string, *Layout) {
+	l := GenValid(t, o)
+	n := rapid.IntRange(1, 3).Draw(t, "nHostile")
+	var muts []string
+	truncate := -1
+	for i := 0; i < n; i++ {
+		kinds := []string{"sev-offset", "sev-length", "sev-count", "sev-sig", "sev-section-field", "tdx-offset", "tdx-length", "tdx-count", "tdx-sig-version", "tdx-section-field",
+			"footer-size", "entry-size", "duplicate-entry", "drop-reset", "truncate", "sev-count+length-consistent", "tdx-count+length-consistent", "tdx-private-memsize"}
+		k := rapid.SampledFrom(kinds).Draw(t, "hostileKind")
+		muts = append(muts, k)
+		switch k {
+		case "sev-offset":
+			l.Ov.SevOffset = h32(t, "v")
+		case "sev-length":
+			l.Ov.SevLen = h32(t, "v")
+		case "sev-count":
+			l.Ov.SevCount = h32(t, "v")
+		case "sev-count+length-consistent":
+			// count and length consistent modulo 2^32
+			c := *h32(t, "v")
+			ln := c*12 + 16
+			l.Ov.SevCount, l.Ov.SevLen = &c, &ln
+		case "sev-sig":
+			l.Ov.SevSig = h32(t, "v")
+		case "sev-section-field":
+			if len(l.Sev) > 0 {
+				j := rapid.IntRange(0, len(l.Sev)-1).Draw(t, "j")
+				switch rapid.IntRange(0, 2).Draw(t, "f") {
+				case 0:
+					l.Sev[j].Address = *h32(t, "v")
+				case 1:
+					l.Sev[j].Length = *h32(t, "v")
+				case 2:
+					l.Sev[j].Kind = *h32(t, "v")
+				}
+			}
+		case "tdx-offset":
+			l.Ov.TdxOffset = h32(t, "v")
+		case "tdx-length":
+			l.Ov.TdxLen = h32(t, "v")
+		case "tdx-count":
+			l.Ov.TdxCount = h32(t, "v")
+		case "tdx-count+length-consistent":
+			c := *h32(t, "v")
+			ln := c*32 + 16
+			l.Ov.TdxCount, l.Ov.TdxLen = &c, &ln
+		case "tdx-sig-version":
+			if rapid.Bool().Draw(t, "sig") {
+				l.Ov.TdxSig = h32(t, "v")
+			} else {
+				l.Ov.TdxVersion = h32(t, "v")
+			}
+		case "tdx-private-memsize":
+			for j := range l.Tdx {
+				if l.Tdx[j].Type == TdxTDHOB || l.Tdx[j].Type == TdxTempMem {
+					if rapid.Bool().Draw(t, "skipThis") {
+						continue
+					}
+					v := h64(t, "v64")
+					if o.MaxTdxPrivateSize != 0 && v > o.MaxTdxPrivateSize {
+						v = rapid.SampledFrom([]uint64{0, 0xfff, 0x1000, 0x1001, 0x100000, o.MaxTdxPrivateSize}).Draw(t, "v64bounded")
+						if o.Excluded != nil {
+							*o.Excluded++
+						}
+					}
+					l.Tdx[j].MemorySize = v
+					break
+				}
+			}
+		case "tdx-section-field":
+			if len(l.Tdx) > 0 {
+				j := rapid.IntRange(0, len(l.Tdx)-1).Draw(t, "j")
+				switch rapid.IntRange(0, 5).Draw(t, "f") {
+				case 0:
+					l.Tdx[j].DataOffset = *h32(t, "v")
+				case 1:
+					l.Tdx[j].DataSize = *h32(t, "v")
+				case 2:
+					l.Tdx[j].MemoryBase = h64(t, "v64")
+				case 3:
+					v := h64(t, "v64")
+					if (l.Tdx[j].Type == TdxTDHOB || l.Tdx[j].Type == TdxTempMem) && o.MaxTdxPrivateSize != 0 && v > o.MaxTdxPrivateSize {
+						v = rapid.SampledFrom([]uint64{0, 0xfff, 0x1000, 0x1001, 0x100000, o.MaxTdxPrivateSize}).Draw(t, "v64bounded")
+						if o.Excluded != nil {
+							*o.Excluded++
+						}
+					}
+					l.Tdx[j].MemorySize = v
+					muts[len(muts)-1] = "tdx-section-memsize/type" + string(rune('0'+l.Tdx[j].Type%10))
+				case 4:
+					l.Tdx[j].Type = *h32(t, "v")
+				case 5:
+					l.Tdx[j].Attributes = *h32(t, "v")
+				}
+			}
+		case "footer-size":
+			v := uint16(*h32(t, "v"))
+			l.Ov.FooterSize = &v
+		case "entry-size":
+			v := uint16(*h32(t, "v"))
+			l.Ov.EntrySize = &v
+			l.Ov.EntrySizeIdx = rapid.IntRange(0, 5).Draw(t, "idx")
+		case "duplicate-entry":
+			l.Ov.DuplicateEntry = true
+		case "drop-reset":
+			l.Ov.DropReset = true
+		case "truncate":
+			truncate = rapid.IntRange(0, l.Spec.Size).Draw(t, "truncAt")
+		}
+	}
+	Assemble(t, l)
+	img := l.Spec.Build()
+	if truncate >= 0 && truncate <= len(img) {
+		if rapid.Bool().Draw(t, "truncFront") {
+			img = img[len(img)-truncate:]
+		} else {
+			img = img[:truncate]
+		}
+	}
+	return img, muts, l
 }
 
 func min(a, b int) int {
